@@ -294,6 +294,29 @@ def _valid(st, g):
             if got != exp:
                 st.violation("is_valid_cpd", "wrong-verdict", {"g": g, "site": "is_valid_cpd", "kind": "wrong-verdict", "col": j, "delta": d}, got, exp)
             st.outcome(int(got))
+            # normalize (also the last step of reduce): every column becomes the original column divided by its sum, however
+            # close to 1 that sum already was
+            for site, fn in (("normalize", lambda c: c.normalize(inplace=False)),
+                             ("reduce", (lambda c: c.reduce([(lab.name(pa[0]), 0)], inplace=False)) if pa else None)):
+                if fn is None:
+                    continue
+                st.evals += 1
+                st.transitions += 1
+                case = {"g": g, "site": site + "(near-normalised)", "kind": "wrong-table", "col": j, "delta": d}
+                try:
+                    out = np.asarray(fn(TabularCPD(lab.name(0), shape[0], mm, **kw)).get_values(), dtype=float)
+                except Exception as ex:
+                    st.violation(site + "(near-normalised)", "exception", dict(case, kind="exception"), repr(ex)[:200])
+                    continue
+                st.compared += 1
+                if site == "normalize":
+                    want = mm / mm.sum(axis=0, keepdims=True)
+                else:
+                    stride = int(np.prod([ref.card[p] for p in pa[1:]])) if len(pa) > 1 else 1
+                    sub = mm[:, :stride]          # first parent is the slowest-varying axis: its state 0 owns the first block of columns
+                    want = sub / sub.sum(axis=0, keepdims=True)
+                if out.shape != want.shape or np.abs(out - want).max() > 1e-9:
+                    st.violation(site + "(near-normalised)", "wrong-table", case, out.tolist(), want.tolist())
 
 
 DEFECTS = ["none", "missing-cpd", "extra-parent", "missing-parent", "renamed-parent", "parent-card", "parent-states-permuted",
